@@ -55,6 +55,18 @@ fn rv(o: &mut Rep, seed: u64) {
         for i in 0..bounds.len() { check_ks(o, seed, &format!("{} coordinate {}", name, i), cols[i].clone(), &unif(bounds[i].0, bounds[i].1)); }
         for i in 1..bounds.len() { check_corr(o, seed, &format!("{} coordinates 0 and {}", name, i), &cols[0], &cols[i]); }
     }
+    // higher dimensions: every coordinate uniform and EVERY pair of coordinates uncorrelated (a sampler that recycles random
+    // words across coordinates keeps the marginals exact and breaks only the joint law)
+    for dim in [9usize, 12, 17] {
+        let bounds: Vec<(f64, f64)> = (0..dim).map(|i| (-(i as f64) - 1.0, 2.0 * i as f64 + 0.5)).collect();
+        let sp = RealVectorStateSpace::new(dim, Some(bounds.clone())).unwrap();
+        let mut rng = StdRng::seed_from_u64(seed);
+        let n = N / 2;
+        let ss: Vec<RealVectorState> = (0..n).map(|_| sp.sample_uniform(&mut rng).unwrap()).collect();
+        let cols: Vec<Vec<f64>> = (0..dim).map(|i| ss.iter().map(|s| s.values[i]).collect()).collect();
+        for i in 0..dim { check_ks(o, seed, &format!("R^{} coordinate {}", dim, i), cols[i].clone(), &unif(bounds[i].0, bounds[i].1)); }
+        for i in 0..dim { for j in (i + 1)..dim { check_corr(o, seed, &format!("R^{} coordinates {} and {}", dim, i, j), &cols[i], &cols[j]); } }
+    }
 }
 fn so2(o: &mut Rep, seed: u64) {
     for b in [None, Some((-1.0, 2.0)), Some((3.0, PI))] {
